@@ -32,6 +32,20 @@ subroutine k_noint_arr(m, v, g)
   end do
   g = v(1)
 end subroutine k_noint_arr
+
+subroutine k_slot(e, pos)
+  real, intent(in) :: e
+  integer, intent(inout) :: pos
+  if (e > 0.) pos = pos + 1
+end subroutine k_slot
+
+subroutine k_slot3(e, f, pos)
+  real, intent(in) :: e
+  real, intent(out) :: f
+  integer :: pos
+  f = e + real(pos)
+  pos = 1
+end subroutine k_slot3
 """
 
 SRC = """
@@ -72,6 +86,9 @@ BODIES = {
     'loop-nested-if-carried': '  x = 0.\n  do i=1,n\n    if (flag) then\n      if (i > 1) then\n        a(i) = x\n      else\n        x = a(i)\n      end if\n    end if\n  end do',
     'loop-where-carried': '  do j=1,2\n    where (c(:, j) > 0.)\n      w = c(:, j)\n    elsewhere\n      c(:, j) = w\n    end where\n  end do',
     'select-case-in-loop-carried': '  do i=1,n\n    select case (mod(i, 3))\n    case (0)\n      x = a(i)\n    case (1)\n      b(i) = x\n    case default\n      y = x\n    end select\n  end do',
+    'call-index-also-written': '  ia = 1\n  do i=1,n\n    if (flag) then\n      call k_slot(a(ia), ia)\n    end if\n  end do\n  s = real(ia)',
+    'call-index-of-in-and-out-elements-also-written': '  ic = 2\n  call k_slot3(b(ic), c(ic, 1), ic)\n  t = c(2, 1) + real(ic)',
+    'call-section-index-only-read': '  ib = 2\n  call k_rw(n, c(:, ib), w, t)\n  call k_slot(w(ib), ia)',
     'early-exit': '  x = 0.\n  do i=1,n\n    if (a(i) < 0.) exit\n    x = x + a(i)\n  end do\n  s = x + real(i)',
 }
 
